@@ -525,6 +525,30 @@ def own_write_announced_history():
             tail = draw(st.lists(st.one_of(st.just(['storage']), st.just(['answer', OK]), st.just(['tick']),
                                            st.integers(0, 3).map(lambda i: ['release', i, OK])), max_size=8))
             return cfg, acts + tail
+        if draw(st.integers(0, 3)) == 0:
+            # two enqueue() calls overlap; the one started later finishes first, then the scheduler handles the first caller's
+            # message (announced by the store) before that caller is told its id
+            out2 = draw(st.sampled_from([OK, T, T, {'shape': 'map', 'per': per, 'replies': [0]}]))
+            acts = [['enqueue', {'n': n, 'sender': True, 'body': ''}], ['enqueue', {'n': 1, 'sender': True, 'body': ''}],
+                    ['release_kind', 'write', 1], ['release_kind', 'write_done', 0]]
+            if draw(st.integers(0, 3)):
+                acts += [['release_kind', 'relay', 0, OK], ['release_kind', 'remove', 0]]      # the second caller's message is delivered
+                mine = 0
+            else:
+                mine = 1            # ... or its attempt is still open
+            acts += [['release_kind', 'write', 0], ['announce', 0], ['release_kind', 'get', 0], ['release_kind', 'get_done', 0],
+                     ['release_kind', 'relay', mine, out2]]
+            if draw(st.integers(0, 3)):
+                # the scheduler's handling of the first caller's message runs to completion
+                for k_ in ('increment_attempts', 'set_timestamp', 'set_recipients_delivered', 'remove'):
+                    acts.append(['release_kind', k_, 0])
+            else:
+                for k_ in draw(st.lists(st.sampled_from(['remove', 'increment_attempts', 'set_timestamp', 'set_recipients_delivered']), max_size=4)):
+                    acts.append(['release_kind', k_, 0])
+            acts.append(['release_kind', 'write_done', 0])
+            tail = draw(st.lists(st.one_of(st.just(['storage']), st.just(['answer', OK]), st.just(['tick']),
+                                           st.integers(0, 3).map(lambda i: ['release', i, OK])), max_size=8))
+            return cfg, acts + tail
         acts = [['enqueue', {'n': n, 'sender': True, 'body': ''}],
                 ['release_kind', 'write', 0],           # stored (and announced by the store); enqueue() still waits for the id
                 ['announce', 0],
